@@ -1190,7 +1190,7 @@ class ReactionSet:
         basis = {i._basis for i in reactions}
         try: self._basis, = basis
         except: raise ValueError('all reactions must have the same basis')
-        self._stoichiometry = [i._stoichiometry for i in reactions]
+        self._stoichiometry = [i._stoichiometry.copy() for i in reactions] # Independent of the given reactions, like conversions
         self._X = np.array([i.X for i in reactions])
         reactant_index = [i._reactant_index for i in reactions]
         self._reactant_index = tuple(reactant_index) if self._phases else np.array(reactant_index)
